@@ -346,6 +346,12 @@ class WSStream:
 
     async def _close_after_error(self) -> None:
         self.closed = True
+        if self.app_put is not None:
+            # The application is waiting on the handshake it will
+            # now never complete
+            await self.app_put(
+                {"type": "websocket.disconnect", "code": CloseReason.ABNORMAL_CLOSURE.value}
+            )
         # Nothing more will happen on this stream, the protocol must
         # be told (as after any other response) so that it closes or
         # idles the connection.
